@@ -15,7 +15,7 @@ def scene(rnd, n_est, n_gt, fpv):
     pts = [-6.0, -3.5, -2.0, -0.5, 0.0, 1.0, 2.5, 4.0, 7.0]
     mk = lambda labels, i, score: dict(label=rnd.choice(labels), x=rnd.choice(pts) + 0.01 * i, y=rnd.choice(pts) - 0.013 * i, yaw=rnd.choice([0.0, 0.4, 1.2]),
                                        size=rnd.choice([(1.0, 2.0, 1.0), (2.0, 4.5, 1.5), (0.6, 0.6, 1.7)]), score=score,
-                                       frame="base_link", uuid=str(i))
+                                       frame="base_link", uuid=str(i), z=rnd.choice([0.0, 0.0, 0.9, -0.6]))
     est = [mk(LABELS, i, rnd.choice([0.2, 0.5, 0.9])) for i in range(n_est)]
     gt = [mk(GT_LABELS if fpv else LABELS, 100 + i, 1.0) for i in range(n_gt)]
     if rnd.random() < 0.3 and est and gt:       # mixed frames: never paired
